@@ -482,6 +482,112 @@ impl HistSystem for BSys {
 }
 
 // ------------------------------------------------------------------------------------------------
+// BoundedStack of a plain type without drop glue (the VM's call stack holds such a type)
+// ------------------------------------------------------------------------------------------------
+
+struct PSys {
+    cap: usize,
+}
+
+struct PInst {
+    real: BoundedStack<u32>,
+    model: Vec<u32>,
+}
+
+impl HistSystem for PSys {
+    type Op = BOp;
+    type Inst = PInst;
+
+    fn fresh(&self) -> PInst {
+        PInst { real: BoundedStack::new(self.cap), model: Vec::new() }
+    }
+    fn ops(&self, _inst: &PInst) -> Vec<BOp> {
+        vec![BOp::Push(1), BOp::Push(2), BOp::Pop, BOp::LastMutWrite(3), BOp::Clear]
+    }
+    fn apply(&self, inst: &mut PInst, op: &BOp) -> Result<(), Diverge> {
+        match op {
+            BOp::Push(v) => match inst.real.push(*v as u32) {
+                Ok(()) => {
+                    if inst.model.len() >= self.cap {
+                        return Err(d("ppush/over-capacity", format!("push succeeded at height {} capacity {}", inst.model.len(), self.cap)));
+                    }
+                    inst.model.push(*v as u32);
+                }
+                Err(_) => {
+                    if inst.model.len() < self.cap {
+                        return Err(d("ppush/spurious-full", format!("push failed at height {} capacity {}", inst.model.len(), self.cap)));
+                    }
+                }
+            },
+            BOp::Pop => {
+                let (got, exp) = (inst.real.pop(), inst.model.pop());
+                if got != exp {
+                    return Err(d("ppop/value", format!("pop returned {got:?}, model {exp:?}")));
+                }
+            }
+            BOp::LastMutWrite(v) => {
+                let got = inst.real.last_mut().map(|x| {
+                    *x = *v as u32;
+                });
+                let exp = inst.model.last_mut().map(|x| {
+                    *x = *v as u32;
+                });
+                if got != exp {
+                    return Err(d("plast_mut", "last_mut presence differs from the model".to_string()));
+                }
+            }
+            BOp::Clear => {
+                inst.real.clear();
+                inst.model.clear();
+            }
+        }
+        Ok(())
+    }
+    fn invariants(&self, inst: &mut PInst) -> Result<(), Diverge> {
+        let (r, m) = (&inst.real, &inst.model);
+        if r.len() != m.len() || r.is_empty() != m.is_empty() {
+            return Err(d("plen", format!("len {} model {}", r.len(), m.len())));
+        }
+        let it: Vec<u32> = r.iter().copied().collect();
+        if &it != m {
+            return Err(d("piter", format!("iter {it:?} model {m:?}")));
+        }
+        let mut back: Vec<u32> = r.iter_backwards().copied().collect();
+        back.reverse();
+        if &back != m {
+            return Err(d("piter_backwards", format!("iter_backwards {back:?} model {m:?}")));
+        }
+        if r.last().copied() != m.last().copied() {
+            return Err(d("plast", format!("last {:?} model {:?}", r.last(), m.last())));
+        }
+        Ok(())
+    }
+    fn canon(&self, inst: &PInst) -> Vec<u8> {
+        let mut v = vec![inst.model.len() as u8];
+        v.extend(inst.model.iter().map(|x| *x as u8));
+        v
+    }
+    fn finish(&self, _inst: PInst) -> Result<(), Diverge> {
+        Ok(())
+    }
+    fn nontrivial(&self, inst: &PInst) -> bool {
+        inst.model.len() >= 2 || inst.model.len() == self.cap
+    }
+    fn op_kind(&self, op: &BOp) -> String {
+        match op {
+            BOp::Push(_) => "ppush",
+            BOp::Pop => "ppop",
+            BOp::LastMutWrite(_) => "plast_mut",
+            BOp::Clear => "pclear",
+        }
+        .to_string()
+    }
+    fn outcome(&self, inst: &PInst) -> String {
+        format!("ps cap{} height{}", self.cap, inst.model.len())
+    }
+}
+
+// ------------------------------------------------------------------------------------------------
 
 fn vcaps(tier: Tier) -> Vec<usize> {
     tier.pick(vec![1, 2, 3, 4], vec![1, 2, 3, 4, 5, 6])
@@ -508,7 +614,7 @@ impl Check for C14 {
 
     fn info(&self, tier: Tier) -> CheckInfo {
         CheckInfo {
-            rule: "explicit-state BFS to closure over histories of push(nil|1|2)/pop/pop_n<1..3>/pop_w_offset(0..cap)/set(0..cap+1,1|2)/clear/clear_until(0..height) on the real ValueStack and push/pop/last_mut-write/clear on BoundedStack<drop-tracked>; every step compared with a Vec model, all observers (get/last/peek_last/len/is_empty/iter/as_slice/top_location) evaluated in every state; canonical state = full backing array incl. dead slots + count. Non-trivial = state with a dead slot still holding a non-nil value (ValueStack) / height>=2 or full (BoundedStack)".into(),
+            rule: "explicit-state BFS to closure over histories of push(nil|1|2)/pop/pop_n<1..3>/pop_w_offset(0..cap)/set(0..cap+1,1|2)/clear/clear_until(0..height) on the real ValueStack and push/pop/last_mut-write/clear on BoundedStack<drop-tracked> and on BoundedStack<u32> (a type without drop glue, like the VM's call frames); every step compared with a Vec model, all observers (get/last/peek_last/len/is_empty/iter/as_slice/top_location) evaluated in every state; canonical state = full backing array incl. dead slots + count. Non-trivial = state with a dead slot still holding a non-nil value (ValueStack) / height>=2 or full (BoundedStack)".into(),
             bound: format!("closure of the reachable concrete state space for ValueStack capacities {:?} and BoundedStack capacities {:?}", vcaps(tier), bcaps(tier)),
             exhaustive: true,
             assumptions: vec![
@@ -521,7 +627,7 @@ impl Check for C14 {
     }
 
     fn units(&self, tier: Tier) -> u64 {
-        (vcaps(tier).len() + bcaps(tier).len()) as u64
+        (vcaps(tier).len() + 2 * bcaps(tier).len()) as u64
     }
 
     fn run_unit(&self, tier: Tier, unit: u64, out: &mut ChunkResult) {
@@ -530,10 +636,13 @@ impl Check for C14 {
         if u < v.len() {
             let sys = VSys { cap: v[u] };
             hist::bfs(&sys, &cfg("value_stack", v[u], 4), out);
-        } else {
+        } else if u < v.len() + bcaps(tier).len() {
             let cap = bcaps(tier)[u - v.len()];
             let sys = BSys { cap };
             hist::bfs(&sys, &cfg("bounded_stack", cap, 2), out);
+        } else {
+            let cap = bcaps(tier)[u - v.len() - bcaps(tier).len()];
+            hist::bfs(&PSys { cap }, &cfg("bounded_stack_plain", cap, 2), out);
         }
     }
 
@@ -543,6 +652,10 @@ impl Check for C14 {
             "value_stack" => {
                 let h: Vec<VOp> = serde_json::from_value(case["history"].clone()).ok()?;
                 hist::replay(&VSys { cap }, &cfg("value_stack", cap, 1), &h)
+            }
+            "bounded_stack_plain" => {
+                let h: Vec<BOp> = serde_json::from_value(case["history"].clone()).ok()?;
+                hist::replay(&PSys { cap }, &cfg("bounded_stack_plain", cap, 1), &h)
             }
             _ => {
                 let h: Vec<BOp> = serde_json::from_value(case["history"].clone()).ok()?;
